@@ -48,7 +48,7 @@ class AbstractDiscreteTimeOfflineInterpreter(AbstractOfflineInterpreter, Discret
         self.sampling_violation_counter = 0
         ts = dataset['time']
         for i in range(len(ts) - 1):
-            duration = (ts[i+1] - ts[i]) * self.normalize
+            duration = self.gap(ts[i], ts[i+1])
             self.update_sampling_violation_counter(duration)
 
         # convert format
